@@ -116,6 +116,17 @@ class YieldCounter:
                 return self.size_of(st, e.func.value)
             if nm == "sort_population" and e.args:
                 return self.size_of(st, e.args[0])
+            if nm in ("set", "frozenset", "fromkeys") and e.args:
+                # de-duplication: between 1 and |S| elements remain (every value attainable by choosing duplicates)
+                s_ = self.size_of(st, e.args[0])
+                if isinstance(s_, Lin):
+                    u = env.facts.fresh("distinct", exact=env.facts.is_exact(s_), integer=True)
+                    env.facts.add_le(u, s_)
+                    lo1 = self.amin(env, Lin.c(1), s_)
+                    if isinstance(lo1, Lin):
+                        env.facts.add_ge(u, lo1)
+                    return u
+                return s_
             if nm == "range" and len(e.args) == 1:
                 v = evaluate(env, e.args[0])
                 return v if isinstance(v, Lin) and entails_ge0(env.facts, v) else Opaque("range bound not provably >= 0")
@@ -214,7 +225,7 @@ class YieldCounter:
         if isinstance(s, ast.Raise):
             return []
         if isinstance(s, ast.If):
-            t = truth(env, s.test)
+            t = self.truth(st, s.test)
             out = []
             if t.v is not False:
                 a = st.copy()
@@ -248,6 +259,25 @@ class YieldCounter:
             st.count = Opaque("break/continue in a counted region")
             return [st]
         return [st]
+
+    def truth(self, st: YState, test: ast.AST) -> B3:
+        """absint.truth extended with the truthiness of sequences of known size"""
+        if isinstance(test, ast.Name) and test.id in st.sizes and isinstance(st.sizes[test.id], Lin):
+            sz = st.sizes[test.id]
+            if entails_ge0(st.env.facts, sz - Lin.c(1)):
+                return B3(True)
+            if entails_ge0(st.env.facts, -sz):
+                return B3(False)
+            return B3(None)
+        if isinstance(test, ast.UnaryOp) and isinstance(test.op, ast.Not):
+            v = self.truth(st, test.operand).v
+            return B3(None if v is None else not v)
+        if isinstance(test, ast.BoolOp):
+            vs = [self.truth(st, v).v for v in test.values]
+            if isinstance(test.op, ast.And):
+                return B3(False if any(v is False for v in vs) else True if all(v is True for v in vs) else None)
+            return B3(True if any(v is True for v in vs) else False if all(v is False for v in vs) else None)
+        return truth(st.env, test)
 
     # ------------------------------------------------------------------ loops
     def body_effect(self, body: list[ast.stmt], st: YState, extra_vars: dict[str, Any]):
